@@ -3,7 +3,7 @@ from .common import *
 
 PROP_LEVEL['C15'] = 'proof'
 PROP_TRUSTED['C15'] = [
-    "antenna count enumerated over {1,2,3} (each antenna is treated by the same loop body; delays, request sizes, the request "
+    "antenna count enumerated over {1,2,3} (quick) / {1,2,3,4} (thorough) (each antenna is treated by the same loop body; delays, request sizes, the request "
     "history (through the cache invariant) and stream contents are symbolic)",
     "numpy Generator ghost-stream model; one noise source + one custom signal per stream",
 ]
@@ -60,7 +60,7 @@ def OWN(spec, P, i, p, j):
 
 @contract('C15', 'init_delays', functions=[MA + '.__init__'])
 def init_delays(vc):
-    nant = 1 + vc.choose(3, 'num_antennas')
+    nant = 1 + vc.choose(3 if vc.tier != 'thorough' else 4, 'num_antennas')
     npol = 1 + vc.choose(2, 'num_pols')
     form = ('none', 'list')[vc.choose(2, 'delays')]
     out, P = build_array(vc, nant, npol, form)
@@ -80,7 +80,7 @@ def init_delays(vc):
 
 
 def request(vc, later):
-    nant = 1 + vc.choose(3, 'num_antennas')
+    nant = 1 + vc.choose(3 if vc.tier != 'thorough' else 4, 'num_antennas')
     npol = 1 + vc.choose(2, 'num_pols')
     out, P = build_array(vc, nant, npol, 'list')
     if not out.ok:
@@ -165,7 +165,7 @@ def later_request(vc):
 
 @contract('C15', 'reset_clears_background', functions=[MA + '.set_time', MA + '.add_time', MA + '.reset_start'])
 def reset(vc):
-    nant = 1 + vc.choose(3, 'num_antennas')
+    nant = 1 + vc.choose(3 if vc.tier != 'thorough' else 4, 'num_antennas')
     npol = 1 + vc.choose(2, 'num_pols')
     out, P = build_array(vc, nant, npol, 'list')
     arr = out.value
